@@ -178,9 +178,10 @@ def setCore (c : Cfg) (s : State) (h : Nat) (o : Obj) (kw : Kw) : State × List 
   let vec := colVec c.ncols kw
   if vecInvalid vec then (s, [], .invalid)
   else if c.lazy then
-    -- values validated, cached, `_SO_createValues.update(kw)`; the extras come afterwards
-    let s' := s.setObj h { o with pending := mergeVec o.pending vec }
-    if unknownKey c.ncols kw then (s', [], .typeError) else (s', [], .ok)
+    -- all values validated, then an unknown keyword is refused *before* anything is changed
+    -- (fix bf075e4); only then the values are cached and `_SO_createValues.update(kw)`
+    if unknownKey c.ncols kw then (s, [], .typeError)
+    else (s.setObj h { o with pending := mergeVec o.pending vec }, [], .ok)
   else if unknownKey c.ncols kw then (s, [], .typeError)
   else if vecEmpty vec then (s, afterUpdate c o.id, .ok)        -- `if toUpdate:` is false: no UPDATE
   else ({ s with rows := updRows s.rows o.id vec }, Entry.upd o.id vec :: afterUpdate c o.id, .ok)
